@@ -18,29 +18,11 @@ RULE = ("scenario = one round on fresh mutex object(s) of one kind (spin_mutex, 
 BUILDS = [dict(name="c08", variant=v) for v in ("rel", "dbg", "tsan")]
 
 KINDS = ["spin_mutex", "queuing_mutex", "mutex", "speculative_spin_mutex", "spin_rw_mutex", "queuing_rw_mutex", "rw_mutex", "speculative_spin_rw_mutex"]
-# Class R (queuing_rw_mutex: upgrade -> downgrade -> upgrade inside one hold while another reader waits in upgrade_to_writer) is a genuine
-# defect of the tree: the re-upgraded writer finds its successor in STATE_UPGRADE_LOSER, releases through the branch that does not hand
-# shake on the internal lock, the successor's upgrade_to_writer never returns and every later request is blocked (release builds: keys
-# c08.R.hang.spin-stall / c08.R.hang.quiescent; assertion builds: assert.upgrade_to_writer, "n_state & (STATE_WRITER | STATE_UPGRADE_WAITING)").
-# The class runs in processes of its own (a hang ends the process) and only once known_findings.json has an entry of property C08
-# that covers it (status known: printed as KNOWN-FINDING; status fixed: strict) - or when C08_CLASS_R=1 is set. Every other class never
-# produces the pattern on queuing_rw_mutex and stays strict.
-R_KEYS = ["c08.R.hang.spin-stall", "c08.R.hang.quiescent", "assert.upgrade_to_writer"]
-
-
-def _class_r_wanted(chk):
-    if os.environ.get("C08_CLASS_R") == "1":
-        return "forced by C08_CLASS_R=1"
-    import re
-    for e in chk.findings.entries:
-        if e.get("property") != "C08":
-            continue
-        if e.get("status") == "fixed" and "upgrade" in (e.get("id", "") + e.get("line", "")):
-            return "finding %s is marked fixed: class R runs strictly" % e.get("id")
-        for pat in e.get("keys", []):
-            if any(re.fullmatch(pat, k) for k in R_KEYS):
-                return "registered as known finding %s" % e.get("id")
-    return ""
+# Class R (queuing_rw_mutex: upgrade -> downgrade -> upgrade inside one hold while another reader waits in upgrade_to_writer) found a genuine
+# defect: the re-upgraded writer found its successor in STATE_UPGRADE_LOSER and released through the branch that does not hand-shake on the
+# internal lock; the successor's upgrade_to_writer never returned and every later request blocked (release builds: c08.R.hang.spin-stall /
+# c08.R.hang.quiescent; assertion builds: assert.upgrade_to_writer). Repaired by fix 8d13147; the class stays, strict, in processes of its
+# own (a hang ends the process), and the other classes produce the pattern too.
 
 
 def run(tier, seed, scale):
@@ -66,7 +48,7 @@ def run(tier, seed, scale):
         for k in KINDS:
             phases.append(Phase("rel-" + k, "c08", "rel", 100000, procs=1, args=["--kind", k]))
             phases.append(Phase("rel-1cpu-" + k, "c08", "rel", 8000, procs=1, args=["--kind", k], cpus=1))
-    class_r = _class_r_wanted(chk)
+    class_r = "strict (the defect it found is repaired: fix 8d13147)"
     if class_r:
         phases.append(Phase("rel-classR", "c08", "rel", 60000 if q else 400000, procs=2 if q else 4, args=["--cls", "R"]))
         phases.append(Phase("rel-classR-repro", "c08", "rel", 40 if q else 400, procs=1, args=["--repro", "reupgrade"]))
@@ -106,10 +88,8 @@ def run(tier, seed, scale):
          "transaction (a report would be rolled back) and is re-evaluated under the real lock; TSan cannot see transactional synchronisation, so the "
          "speculative kinds are left out of the tsan variant" % txn) if rtm else
         "RTM is not available on this machine: the speculative mutexes exercised their non-speculative fall-back only",
-        "queuing_rw_mutex: upgrade -> downgrade -> upgrade inside one hold is produced only by scenario class R (own processes, keys c08.R.*): on this tree it "
-        "strands a waiting upgrader (genuine defect reported with this check; `c08 --cls R` reproduces the hang in the rel build within ~10^4 rounds, "
-        "`c08 --repro reupgrade` the assertion in the dbg build deterministically). Class R in this run: " + (class_r or
-        "NOT RUN - no entry of property C08 in known_findings.json covers it yet (set C08_CLASS_R=1 to run it)") + ". The other rw kinds get the pattern in class X",
+        "queuing_rw_mutex: upgrade -> downgrade -> upgrade inside one hold with another upgrader waiting (scenario class R, keys c08.R.*, plus the deterministic "
+        "`c08 --repro reupgrade`) used to strand the waiting upgrader; repaired by fix 8d13147 and checked strictly in every run",
         "try_acquire is allowed to fail spuriously; only `true => really taken` and `returns while the lock is held` are demanded",
         "null_mutex / null_rw_mutex are out of scope",
     ]
@@ -131,7 +111,7 @@ def run(tier, seed, scale):
         "unlock_to_notify_window(hook 125)[rw_mutex,mutex]": h.get("125", {}).get("h", [0] * 8)[1:3],
         "sections_inside_hardware_transaction": txn,
         "hook_delays": st.get("hook_delays", 0),
-        "class_R(queuing_rw_mutex re-upgrade)": class_r or "not run (finding not registered in known_findings.json; C08_CLASS_R=1 forces it)",
+        "class_R(queuing_rw_mutex re-upgrade)": class_r,
         "class_R_rounds": st.get("rounds.class_R", 0),
     }
     return chk.finish()
